@@ -115,6 +115,25 @@ for name_len, els in SHAPES_Q:
                                                  'not pm.io.thermdat._is_temperature_header(result)')],
              cross_check=False)
 
+# record 1 with user notes in place of the date (only the first 8 characters fit before the composition field)
+for notes in ('PBE-D3 400eV 2019 run 12', 'abcdefgh', 'x y'):
+    for name_len, els in ((3, ((1, 1),)), (12, ((2, 2), (1, 1)))):
+        contract(TH + '_write_line1', P, label='notes=%r,name=%d,elements=%s' % (notes, name_len, '+'.join('%dc%dd' % e for e in els)), options=OPT,
+                 args=dict(nasa_specie=species(name_len, els, notes=notes), write_date=Const(False)),
+                 requires=TREQ + ['all(a != b for i, a in enumerate(nasa_specie.elements.keys()) '
+                                  'for j, b in enumerate(nasa_specie.elements.keys()) if i < j)'],
+                 ensures=[('81-characters-with-newline', 'len(result) == 81 and result[80] == "\\n"'),
+                          ('phase-in-column-45', 'result[44] == nasa_specie.phase'),
+                          ('notes-start-in-column-17', 'result[16:16 + %d] == %r' % (min(len(notes), 8), notes[:8])),
+                          ('reads-back-name', "pm.io.thermdat._read_line1(result)['name'] == nasa_specie.name"),
+                          ('reads-back-composition',
+                           "spec.thermdat.same_composition(pm.io.thermdat._read_line1(result)['elements'], nasa_specie.elements)"),
+                          ('reads-back-temperatures',
+                           "abs(pm.io.thermdat._read_line1(result)['T_low'] - nasa_specie.T_low) <= 0.05 and "
+                           "abs(pm.io.thermdat._read_line1(result)['T_high'] - nasa_specie.T_high) <= 0.05 and "
+                           "abs(pm.io.thermdat._read_line1(result)['T_mid'] - nasa_specie.T_mid) <= 0.05")],
+                 cross_check=False)
+
 # ---- whole files: write_thermdat then read_thermdat ------------------------------------------------
 def file_of(**kw):
     return WrittenFile(TH + 'write_thermdat', {'nasa_species': 'species'}, write_date=False, **kw)
